@@ -40,7 +40,7 @@ variable {σ : Type}
 
 /-! ## Side conditions on the generated tables -/
 
-def boxOk (b : Box) : Bool :=
+def boxOk (b : Frames.Box) : Bool :=
   [b.topLeft, b.top, b.topRight, b.midLeft, b.midRight, b.bottomLeft, b.bottom, b.bottomRight].all
     (fun c => c != '\n' && cw c == 1)
 
@@ -51,7 +51,7 @@ theorem boxes_ok :
   decide +kernel
 
 /-- …hence whatever `Box.substitute` selects is such a box. -/
-theorem boxAt_ok (i : Nat) (b : Box) (h : boxAt i = some b) : b.NoNl ∧ b.Narrow cw := by
+theorem boxAt_ok (i : Nat) (b : Frames.Box) (h : boxAt i = some b) : b.NoNl ∧ b.Narrow cw := by
   have hi : i < Gen.boxes.length := by
     unfold boxAt at h
     cases hb : Gen.boxes[i]? with
@@ -78,7 +78,7 @@ padding (`left + right ≤ width`): the lines drawn are `top` blank lines, then 
 own lines as rendered alone at the inner width, each between exactly `left` and `right` blank cells
 and followed by blanks only up to the inner width, then `bottom` blank lines; every line is exactly
 `width` cells wide, and `width` is the full available width when expanding. -/
-theorem padding_rect (v : Variant) (p : PadDims) (expand : Bool) (c : Child σ) (w : Int)
+theorem padding_rect (v : Frames.Variant) (p : PadDims) (expand : Bool) (c : Child σ) (w : Int)
     (hfit : (p.left : Int) + p.right ≤ paddingWidth v p expand c w) :
     splitLines (paddingConsole cw v p expand c w) = paddingLines cw v p expand c w ∧
     (∀ l ∈ paddingLines cw v p expand c w, lineLength cw l = (paddingWidth v p expand c w).toNat) ∧
@@ -95,7 +95,7 @@ theorem padding_rect (v : Variant) (p : PadDims) (expand : Bool) (c : Child σ) 
     exact adjust_stream_of_le cw l _ (renderLines_le cw cw_space cw_le_two _ _ false l hl)
 
 /-- Shape of the padding lines: exactly `top` + (child lines) + `bottom` of them. -/
-theorem padding_line_count (v : Variant) (p : PadDims) (expand : Bool) (c : Child σ) (w : Int) :
+theorem padding_line_count (v : Frames.Variant) (p : PadDims) (expand : Bool) (c : Child σ) (w : Int) :
     (paddingLines cw v p expand c w).length =
       p.top + (c.linesAt cw (paddingChildWidth v p expand c w) false).length + p.bottom := by
   simp [paddingLines, Nat.add_assoc]
@@ -122,7 +122,7 @@ console is wide: the lines drawn are the top border, then — unchanged and
 in order — the lines `Console.render_lines` gives for the (padded) child at the inner width, each
 between the two side border characters, then the bottom border; all of them are exactly
 `inner width + 2` cells wide. -/
-theorem panel_rect (env : Env) (v : Variant) (o : PanelOpts) (c : Child σ) (w : Int) (p : PadDims) (box : Box)
+theorem panel_rect (env : Env) (v : Frames.Variant) (o : PanelOpts) (c : Child σ) (w : Int) (p : PadDims) (box : Frames.Box)
     (out : List (Segment σ)) (hp : unpackPad o.padding = .ok p)
     (hb : boxAt (substituteBox env (o.safeBox.getD env.safeBox) o.box) = some box)
     (h : panelConsole cw env v o c w = .ok (some out))
@@ -178,7 +178,7 @@ theorem panel_rect (env : Env) (v : Variant) (o : PanelOpts) (c : Child σ) (w :
 
 /-- An expanding panel without a `width` option fills the available width exactly (`w ≥ 2`); with a
 `width` option and no title it is exactly `min(w, width)` wide. -/
-theorem panel_expand_width (v : Variant) (o : PanelOpts) (inner : Child σ) (w : Int) (he : o.expand = true) :
+theorem panel_expand_width (v : Frames.Variant) (o : PanelOpts) (inner : Child σ) (w : Int) (he : o.expand = true) :
     (o.width = none → panelChildWidth cw v o inner w + 2 = w) ∧
     (∀ pw, o.width = some pw → o.title = [] → panelChildWidth cw v o inner w + 2 = min w pw) := by
   unfold panelChildWidth
@@ -191,7 +191,7 @@ theorem panel_expand_width (v : Variant) (o : PanelOpts) (inner : Child σ) (w :
     omega
 
 /-- The panel never exceeds the available width (title or not), for a child whose measurement is sound. -/
-theorem panel_width_le (v : Variant) (o : PanelOpts) (inner : Child σ) (w : Int) (hw : 3 ≤ w)
+theorem panel_width_le (v : Frames.Variant) (o : PanelOpts) (inner : Child σ) (w : Int) (hw : 3 ≤ w)
     (hm : ∀ k : Int, (inner.measureAt k).maximum ≤ max k 0) :
     panelChildWidth cw v o inner w + 2 ≤ w := by
   unfold panelChildWidth
@@ -222,7 +222,7 @@ lines drawn are — in order — the child's own lines (as it renders alone at t
 brought to their common width with trailing blanks only, between the left and right pads; the pads add
 exactly `alignPadCells` cells, so that with `pad=True` (or right alignment) every line is exactly the
 available width whenever the child's lines fit it. -/
-theorem align_rect (env : Env) (v : Variant) (o : AlignOpts) (c : Child σ) (w : Int) :
+theorem align_rect (env : Env) (v : Frames.Variant) (o : AlignOpts) (c : Child σ) (w : Int) :
     let L := alignChildLines env v o c w
     let sw := shapeWidth cw L
     splitLines (alignConsole cw env v o c w) = alignLines cw env v o c w ∧
@@ -374,7 +374,7 @@ theorem padding_style (A : SOps σ) (sv : SVariant) (s : σ) (p : PadDims) (expa
 width: the top border, the two side cells of every body row and the bottom border are segments of style
 `s + b`; between the side cells stands, unchanged, what `render_lines(style=s)` gives for the (padded) child. -/
 theorem panel_border_style (A : SOps σ) (env : Env) (sv : SVariant) (o : PanelOpts) (s b : σ) (title : Option (TitleO σ))
-    (c : Child σ) (w : Int) (p : PadDims) (box : Box) (out : List (Segment σ)) (hp : unpackPad o.padding = .ok p)
+    (c : Child σ) (w : Int) (p : PadDims) (box : Frames.Box) (out : List (Segment σ)) (hp : unpackPad o.padding = .ok p)
     (hb : boxAt (substituteBox env (o.safeBox.getD env.safeBox) o.box) = some box)
     (ht : ∀ t, title = some t → t.NlFreeO)
     (h : panelConsoleS cw A env sv o s b title c w = .ok (some out)) :
@@ -397,7 +397,7 @@ theorem panel_border_style (A : SOps σ) (env : Env) (sv : SVariant) (o : PanelO
 
 /-- **panel_content_style** (repaired `render_lines`): the blanks that complete a short child line inside a
 panel carry the panel style `s`, like every other content cell. -/
-theorem panel_content_pad_style (A : SOps σ) (z t r : Bool) (bv : Variant) (inner : Child σ) (s : σ) (cwid : Int) :
+theorem panel_content_pad_style (A : SOps σ) (z t r : Bool) (bv : Frames.Variant) (inner : Child σ) (s : σ) (cwid : Int) :
     inner.linesAtS cw A { base := bv, linesPadUnstyled := false, titleAtConsoleWidth := t, ruleNoTitleEnd := r } cwid (some s) true =
       (splitLinesTagged (Frames.applyStyle A (some s) (inner.renderAt cwid))).map (fun q => adjustLineLength cw q.1 cwid.toNat (some s) true) := by
   have := z
@@ -443,11 +443,11 @@ theorem vertical_center_lines (height : Int) (style : Option σ) (c : Child σ) 
 title the title part of the top border is exactly `cwid − 2` cells — the top border is as wide as the rest of
 the panel — at EVERY available width, wider than the console or not.  (`cwid` = child width, the panel is
 `cwid + 2` wide; `hsimple`: the aligned title stays in the simple domain, i.e. the fill character is simple.) -/
-theorem panel_title_own_width (v : Variant) (title : List Char) (a : AlignM) (t : TitleO σ) (st : σ)
+theorem panel_title_own_width (v : Frames.Variant) (title : List Char) (a : AlignM) (t : TitleO σ) (st : σ)
     (cwid : Int) (ch : Char) (hch : cw ch = 1) (h2 : 2 ≤ cwid) (hv : v.rstripCountsChars = false)
     (ht : simpleTitle (σ := σ) cw v title a = some t)
     (hsimple : ∀ t0, panelTitle title = some t0 → (textAlign cw t0 a (cwid - 2) ch).all simpleChar = true) :
-    ∃ ts, t.render st (cwid - 2) ch (max 1 (cwid - 2)) = some ts ∧ lineLength cw ts = (cwid - 2).toNat := by
+    ∃ ts, t.render st (cwid - 2) ch (cwid - 2) = some ts ∧ lineLength cw ts = (cwid - 2).toNat := by
   unfold simpleTitle at ht
   cases hT : panelTitle title with
   | none => simp [hT] at ht
@@ -455,24 +455,29 @@ theorem panel_title_own_width (v : Variant) (title : List Char) (a : AlignM) (t 
     simp only [hT, Option.some.injEq] at ht
     subst ht
     simp only
-    have hlen := textAlign_cellLen cw cw_space cw_le_two t0 a (cwid - 2) ch hch (by omega)
-    have hcond : ((textAlign cw t0 a (cwid - 2) ch).all simpleChar &&
-        decide ((cellLen cw (textAlign cw t0 a (cwid - 2) ch) : Int) ≤ max 1 (cwid - 2))) = true := by
-      rw [hsimple t0 hT, hlen]; simp; omega
-    cases hx : textConsoleSimple (σ := σ) cw v (textAlign cw t0 a (cwid - 2) ch) [] (max 1 (cwid - 2)) with
-    | none =>
-      unfold textConsoleSimple at hx
-      rw [if_pos hcond] at hx
-      cases hx
-    | some ts0 =>
-      refine ⟨_, rfl, ?_⟩
-      have h1 := textConsoleSimple_of_fits cw v _ _ ts0 hx (by intro h; rw [hv] at h; cases h)
-      have hmap : ∀ l : List (Segment σ), lineLength cw (l.map (fun g => { g with style := some st })) = lineLength cw l := by
-        intro l
-        induction l with
-        | nil => rfl
-        | cons x xs ih => simp only [List.map_cons, lineLength_cons, ih]; rfl
-      rw [hmap, h1, hlen]
+    by_cases hrw : cwid - 2 < 1
+    · refine ⟨[], by simp [hrw], ?_⟩
+      have : (cwid - 2).toNat = 0 := by omega
+      rw [this]; rfl
+    · simp only [hrw, if_false]
+      have hlen := textAlign_cellLen cw cw_space cw_le_two t0 a (cwid - 2) ch hch (by omega)
+      have hcond : ((textAlign cw t0 a (cwid - 2) ch).all simpleChar &&
+          decide ((cellLen cw (textAlign cw t0 a (cwid - 2) ch) : Int) ≤ cwid - 2)) = true := by
+        rw [hsimple t0 hT, hlen]; simp; omega
+      cases hx : textConsoleSimple (σ := σ) cw v (textAlign cw t0 a (cwid - 2) ch) [] (cwid - 2) with
+      | none =>
+        unfold textConsoleSimple at hx
+        rw [if_pos hcond] at hx
+        cases hx
+      | some ts0 =>
+        refine ⟨_, rfl, ?_⟩
+        have h1 := textConsoleSimple_of_fits cw v _ _ ts0 hx (by intro h; rw [hv] at h; cases h)
+        have hmap : ∀ l : List (Segment σ), lineLength cw (l.map (fun g => { g with style := some st })) = lineLength cw l := by
+          intro l
+          induction l with
+          | nil => rfl
+          | cons x xs ih => simp only [List.map_cons, lineLength_cons, ih]; rfl
+        rw [hmap, h1, hlen]
 
 /-- New finding, rich as found: a panel rendered with options wider than the console gets its title cropped to
 `console.width` — the title part is 10 cells where the border needs 26 (`Panel("x", title="a long title here")`
@@ -485,7 +490,7 @@ theorem old_panel_title_cropped_at_console_width :
   decide +kernel
 
 /-- Repaired `Rule` without a title honours its `end` option; rich as found ignores it. -/
-theorem rule_no_title_end (env : Env) (bv : Variant) (l t : Bool) (o : RuleOpts) (w : Int) (h : o.title = []) :
+theorem rule_no_title_end (env : Env) (bv : Frames.Variant) (l t : Bool) (o : RuleOpts) (w : Int) (h : o.title = []) :
     (ruleTextS cw env { base := bv, linesPadUnstyled := l, titleAtConsoleWidth := t, ruleNoTitleEnd := false } o w).2 = o.endS ∧
     (ruleTextS cw env { base := bv, linesPadUnstyled := l, titleAtConsoleWidth := t, ruleNoTitleEnd := true } o w).2 = ['\n'] := by
   unfold ruleTextS ruleText
@@ -498,7 +503,7 @@ theorem rule_no_title_end (env : Env) (bv : Variant) (l t : Bool) (o : RuleOpts)
 `end`.  With the repaired `Text.rstrip_end` (cell count; fix f5f2be9, what /repo contains now) this holds unconditionally — zero-width
 characters in the title included; with the as-found one (character count) it needs the text to have no more
 characters than cells available or not to end in a blank (see `old_rule_short_after_rstrip`). -/
-theorem rule_exact (env : Env) (v : Variant) (o : RuleOpts) (w : Int) (hw : 1 ≤ w) (out : List (Segment σ))
+theorem rule_exact (env : Env) (v : Frames.Variant) (o : RuleOpts) (w : Int) (hw : 1 ≤ w) (out : List (Segment σ))
     (h : ruleConsole cw env v o w = some out)
     (hns : v.rstripCountsChars = true →
       ((ruleText cw env v o w).1.length : Int) ≤ w ∨ trailingSpaces (ruleText cw env v o w).1 = 0) :
@@ -536,7 +541,7 @@ theorem rule_exact_repaired (env : Env) (z r k : Bool) (o : RuleOpts) (w : Int) 
   exact ⟨_, _, h1, h2⟩
 
 /-- The text of a rule is exactly `w` cells wide for every input whatsoever (`w ≥ 0`). -/
-theorem rule_text_exact (env : Env) (v : Variant) (o : RuleOpts) (w : Int) (hw : 0 ≤ w) :
+theorem rule_text_exact (env : Env) (v : Frames.Variant) (o : RuleOpts) (w : Int) (hw : 0 ≤ w) :
     cellLen cw (ruleText cw env v o w).1 = w.toNat :=
   ruleText_cellLen cw cw_space cw_le_two env v o w hw
 
@@ -671,7 +676,7 @@ theorem progress_bar_has_no_newline (env : Env) (o : ProgressOpts) (w : Int) :
 blanks; `itemOrder` is `0, 1, …, n-1` row-first, and column-first it puts item `off j + r` at row `r`
 of column `j` (consecutive indices down each column, columns left to right); in both cases every item
 occurs exactly once. -/
-theorem columns_each_once_in_order (v : Variant) (o : ColumnsOpts) (measured : List Int) (maxWidth : Int) (L : ColumnsLayout)
+theorem columns_each_once_in_order (v : Frames.Variant) (o : ColumnsOpts) (measured : List Int) (maxWidth : Int) (L : ColumnsLayout)
     (h : columnsLayout v o measured maxWidth = .ok (some L)) :
     0 < L.columnCount ∧
     (∀ row ∈ L.rows, row.length = L.columnCount) ∧
@@ -706,7 +711,7 @@ theorem columns_repaired_never_raises (z r k : Bool) (o : ColumnsOpts) (measured
     (hw : o.width = none → ∀ m ∈ measured, m ≤ maxWidth) :
     ∃ L, columnsLayout { zeroWidthChild := z, ruleRightRepeat := r, rstripCountsChars := k, columnsZeroCount := false } o measured maxWidth
         = .ok (some L) ∧ 0 < L.columnCount := by
-  generalize hv : ({ zeroWidthChild := z, ruleRightRepeat := r, rstripCountsChars := k, columnsZeroCount := false } : Variant) = v
+  generalize hv : ({ zeroWidthChild := z, ruleRightRepeat := r, rstripCountsChars := k, columnsZeroCount := false } : Frames.Variant) = v
   have hvz : v.columnsZeroCount = false := by rw [← hv]
   cases hres : columnsLayout v o measured maxWidth with
   | error e =>
@@ -729,7 +734,7 @@ theorem columns_repaired_never_raises (z r k : Bool) (o : ColumnsOpts) (measured
     | some L => exact ⟨L, rfl, (columnsLayout_each_once v o measured maxWidth L hres).1⟩
 
 /-- Without a `width` option no `ZeroDivisionError` is possible when the items' measurements are sound. -/
-theorem columns_auto_width_total (v : Variant) (o : ColumnsOpts) (measured : List Int) (maxWidth : Int)
+theorem columns_auto_width_total (v : Frames.Variant) (o : ColumnsOpts) (measured : List Int) (maxWidth : Int)
     (hw : o.width = none) (hmw : 0 ≤ maxWidth) (hfit : ∀ m ∈ measured, m ≤ maxWidth) :
     columnsLayout v o measured maxWidth ≠ .error .zeroDivision :=
   columnsLayout_no_zeroDivision v o measured maxWidth hw hmw hfit
